@@ -653,6 +653,12 @@ class RequestHandler(BaseProtocol, Generic[_Request]):
                     request.remote,
                     exc_info=exc.__cause__,
                 )
+            # some data already got sent, connection is broken (see handle_error)
+            if request.writer.output_size > 0:
+                raise ConnectionError(
+                    "Response is sent already, cannot send another response "
+                    "with the HTTP exception"
+                ) from exc
             resp = Response(
                 status=exc.status, reason=exc.reason, text=exc.text, headers=exc.headers
             )
